@@ -21,7 +21,7 @@ from harness.core import q, coq_list, coq_bool, coq_opt
 
 PID = "C10"
 GEN_GROUPS = ["Evse", "EvseZ", "Battery"]
-TARGETS = ["coq/Props/C10.vo", "coq/Model/SimPerm.vo"]
+TARGETS = ["coq/Props/C10.vo", "coq/Model/SimPerm.vo", "coq/Proofs/SimShift.vo"]
 CASES = {"quick": 330, "thorough": 3300}          # runs (6 per scenario)
 CORR_HEADER = ("From Coq Require Import ZArith QArith List String.\n"
                "From ACN Require Import Base.Num Model.EVSE Model.SimPerm.\nImport ListNotations.\n"
